@@ -5,7 +5,7 @@
 //!   string    real `print_string` (through `StringValue::print_graphql`) vs Lean `printString`
 //!   print     real `print_graphql` into a `JustWriter` vs the text of the Lean printer model, for type-system
 //!             documents (with and without extensions) and executable documents (with `#import`)
-//!   strip     real `remove_builtins` (+ the model plugin's transform) vs the Lean model, as documents
+//!   strip     real `remove_builtins` + the fold over the configured plugin list (every ordered list of the native plugins) vs the Lean model, as documents
 //!   module    the `serverGraphqlOutput` module text (library composition as in generate.rs, and the real CLI) vs the model
 //! O (the property, on the implementation; specifications are evaluated by the Lean driver):
 //!   js-cook           cook(real body) = s  and the real body cannot end the literal / start a substitution
